@@ -97,7 +97,8 @@ def _py_kinds(text: str) -> list:
 				if parent == 'module':
 					kind = 'Function'
 				elif parent == 'class':
-					kind = 'ClassMethod' if 'classmethod' in decos else 'Constructor' if n.name == '__init__' else 'Method'
+					# a static method is a plain function that lives in the class: not a method (no receiver), not a closure (no enclosing def's scope)
+					kind = 'ClassMethod' if 'classmethod' in decos else 'Function' if 'staticmethod' in decos else 'Constructor' if n.name == '__init__' else 'Method'
 				else:
 					kind = 'Closure'
 				out.append((n.name, kind))
